@@ -2,6 +2,7 @@
    Safety halves proved for every history; the liveness halves are compared (and are violated by the
    implementation: findings C12-F5, C12-F6, C12-F7). -/
 import PS.Proofs.Enum.BeeOrderRun
+import PS.Proofs.Enum.BeeDeleted
 import PS.Props.C02_Bee
 namespace PS.C12Bee
 open PS PS.G PS.Bee PS.C02Bee
@@ -51,6 +52,28 @@ theorem C12_Bee_merge_effect (E : Env S) (g : Gen S) (other : Prog) (ty : Ty) :
     exact ⟨r.2, hr, rfl⟩
 
 example : (merge cE ((Gen.new cE).get (by decide +kernel)) (.node cOne []) cInt).st.deleted = [.node cOne []] := by
+  decide +kernel
+
+/-- **A MERGED PROGRAM IS NEVER YIELDED AGAIN**, every history: after `merge_program(_, other)` — whatever the state
+    `g` reached before (any earlier history), whatever the later interleaving of `next` calls and further merges —
+    `other` itself is not among the programs yielded afterwards (`_deleted` only grows and a program is yielded only
+    if it is not in `_deleted`).  Programs that CONTAIN `other` may still be yielded: finding C12-F6. -/
+theorem C12_Bee_merged_never_yielded (E : Env S) (fuel : Nat) (g g' : Gen S) (other : Prog) (ty : Ty) (acts : List Act)
+    (out : List Prog) (hi : GInv E g) (h : runActs E fuel acts (merge E g other ty) [] = some (g', out)) :
+    other ∉ out :=
+  runActs_deleted E other fuel acts _ g' [] out h (merge_sound E g other ty hi) (merge_deletes E g other ty) (by simp)
+
+/-- the same from the fresh enumerator: history `acts1`, then the merge, then history `acts2` -/
+theorem C12_Bee_merged_never_yielded_run (E : Env S) (fuel : Nat) (g0 g1 g2 : Gen S) (other : Prog) (ty : Ty)
+    (acts1 acts2 : List Act) (out1 out2 : List Prog) (h0 : Gen.new E = some g0)
+    (h1 : runActs E fuel acts1 g0 [] = some (g1, out1))
+    (h2 : runActs E fuel acts2 (merge E g1 other ty) [] = some (g2, out2)) : other ∉ out2 :=
+  C12_Bee_merged_never_yielded E fuel g1 g2 other ty acts2 out2
+    (runActs_sound E fuel acts1 g0 g1 [] out1 h1 (ginv_new E g0 h0).1 (by simp)).1 h2
+
+/-- non-vacuity: merging `(+ 1 var0)` after two programs: the three remaining yields skip it -/
+example : ((Gen.new cE).bind fun g => runActs cE 400 [.take 2] g []).bind (fun r =>
+      (runActs cE 400 [.take 2] (merge cE r.1 (.node cPlus [.node cOne [], .node cX []]) cInt) []).map fun r2 => r2.2.length) = some 2 := by
   decide +kernel
 
 /-- the order is kept with a filter and through merges (every history): C03_Bee_sorted is about every `Env`
